@@ -575,6 +575,8 @@ func init() {
 		c20TrimScan(c, &sb)
 		c20Init(c, &sb)
 		c.Fingerprint(lt, "init")
+		// round 4c: which writer a command gets (cmd/helpers/output.go, termstate/term.go; c20out.go)
+		c20Out(c, &sb)
 		sb.WriteString("end Rare.Gen.C20\n")
 		return sb.String()
 	})
